@@ -429,4 +429,186 @@ theorem ho_parse_line_shift_on (L : ShiftLawsOn S k) (mode : GameMode) (c c' : H
     rw [hn]
     exact ⟨rfl, hr⟩
 
+
+/-! ### whole sections: the fold over lines -/
+
+def SecLineShiftOn (S : F → Prop) (k : F) (sec : Section) (line line' : Str) : Prop :=
+  match sec with
+  | .timingPoints => TpLineShiftOn S k line line'
+  | .events => EvLineShiftOn S k line line'
+  | .hitObjects => HoLineShiftOn S k line line'
+  | _ => line' = line
+
+theorem parseGeneral_rel_on (st st' : TimingPointsState F P) (h : TpRelOn S k st st') (line : Str) :
+    TpRelOn S k (st.parseGeneral line).2 (st'.parseGeneral line).2 := by
+  obtain ⟨hg, hc, hp, hpt, hcp, hpd⟩ := h
+  unfold TimingPointsState.parseGeneral
+  rw [hg]
+  cases Rosu.parseGeneral st.general line with
+  | mk r g =>
+    cases r with
+    | ok u => exact ⟨rfl, hc, hp, hpt, hcp, hpd⟩
+    | error e => exact ⟨rfl, hc, hp, hpt, hcp, hpd⟩
+
+/-- `StateRel` with the domain facts the fold carries: control-point, pending-group and break-end times of the unshifted state
+in `S`. -/
+def StateRelOn (S : F → Prop) (k : F) (st st' : HitObjectsState F P) : Prop :=
+  HoRel k st.core st'.core ∧ st'.events = shEvents k st.events ∧ TpRelOn S k st.timingPoints st'.timingPoints ∧
+  st'.difficulty = st.difficulty ∧ BreaksIn S st.events
+
+theorem StateRelOn.toRel {st st' : HitObjectsState F P} (h : StateRelOn S k st st') : StateRel k st st' :=
+  ⟨h.1, h.2.1, h.2.2.1.toRel, h.2.2.2.1⟩
+
+theorem stateRelOn_create : StateRelOn S k (HitObjectsState.create : HitObjectsState F P) HitObjectsState.create :=
+  ⟨⟨rfl, rfl, rfl, rfl⟩, rfl, tpRelOn_create, rfl, fun _ h => by cases h⟩
+
+/-- one line of any section through `<HitObjects as DecodeBeatmap>::parse_*`. -/
+theorem step_shift_on (L : ShiftLawsOn S k) (sec : Section) (st st' : HitObjectsState F P) (h : StateRelOn S k st st')
+    (line line' : Str) (hl : SecLineShiftOn S k sec line line') :
+    StateRelOn S k (st.step sec line) (st'.step sec line') := by
+  obtain ⟨hco, hev, htp, hdf, hbr⟩ := h
+  cases sec with
+  | general =>
+    have : line' = line := hl
+    subst this
+    exact ⟨hco, hev, parseGeneral_rel_on _ _ htp line', hdf, hbr⟩
+  | difficulty =>
+    have : line' = line := hl
+    subst this
+    refine ⟨hco, hev, htp, ?_, hbr⟩
+    show (parseDifficulty st'.difficulty line').1 = (parseDifficulty st.difficulty line').1
+    rw [hdf]
+  | events =>
+    have e := ev_parse_line_shift_on L st.events hbr line line' hl
+    refine ⟨hco, ?_, htp, hdf, e.2.2⟩
+    show (parseEvents st'.events line').1 = shEvents k (parseEvents st.events line).1
+    rw [hev]
+    exact e.2.1
+  | timingPoints =>
+    exact ⟨hco, hev, (tp_parse_line_shift_on L _ _ htp line line' hl).2, hdf, hbr⟩
+  | hitObjects =>
+    refine ⟨?_, hev, htp, hdf, hbr⟩
+    show HoRel k (parseHitObjectLine st.timingPoints.general.mode st.core line).1
+      (parseHitObjectLine st'.timingPoints.general.mode st'.core line').1
+    rw [htp.1]
+    exact (ho_parse_line_shift_on L _ _ _ hco line line' hl).2
+  | editor => exact ⟨hco, hev, htp, hdf, hbr⟩
+  | metadata => exact ⟨hco, hev, htp, hdf, hbr⟩
+  | colors => exact ⟨hco, hev, htp, hdf, hbr⟩
+  | variables => exact ⟨hco, hev, htp, hdf, hbr⟩
+  | catchTheBeat => exact ⟨hco, hev, htp, hdf, hbr⟩
+  | mania => exact ⟨hco, hev, htp, hdf, hbr⟩
+
+/-- two file bodies, line by line in the same sections and shift-related with all time fields in `S`. -/
+def LinesShiftOn (S : F → Prop) (k : F) (ls ls' : SecLines) : Prop :=
+  Pointwise (fun a b => b.1 = a.1 ∧ SecLineShiftOn S k a.1 a.2 b.2) ls ls'
+
+theorem fold_shift_on (L : ShiftLawsOn S k) (ls ls' : SecLines) (h : LinesShiftOn S k ls ls')
+    (st st' : HitObjectsState F P) (hst : StateRelOn S k st st') :
+    StateRelOn S k (runLines ls st) (runLines ls' st') := by
+  induction h generalizing st st' with
+  | nil => exact hst
+  | cons hab _ ih =>
+    obtain ⟨hsec, hl⟩ := hab
+    unfold runLines
+    simp only [List.foldl]
+    rw [hsec]
+    exact ih _ _ (step_shift_on L _ st st' hst _ _ hl)
+
+variable [Trig F] [Trig P]
+
+theorem stateIn_of_relOn {st st' : HitObjectsState F P} (h : StateRelOn S k st st')
+    (hobj : ∀ o ∈ st.core.hitObjects, ObjIn S o) : StateIn S st :=
+  ⟨hobj, h.2.2.2.2, h.2.2.1.2.2.2.2.1, h.2.2.1.2.2.2.2.2⟩
+
+/-- **shift_invariant on a domain `S`** (`HitObjects` decoder, no sliders): decoding two bodies whose `[TimingPoints]`,
+`[Events]` and `[HitObjects]` lines differ only in time fields parsing to `t ∈ S` resp. `t + k` yields — under the laws on `S`,
+when the times the finaliser derives from the parsed objects lie in `S` too — the same result with every object, break and
+control-point time `k` later, and nothing else changed. -/
+theorem shift_invariant_on (L : ShiftLawsOn S k) (ls ls' : SecLines) (h : LinesShiftOn S k ls ls')
+    (hobj : ∀ o ∈ (runLines ls (HitObjectsState.create : HitObjectsState F P)).core.hitObjects, ObjIn S o)
+    (hns : ∀ o ∈ (runLines ls (HitObjectsState.create : HitObjectsState F P)).core.hitObjects, isSlider o = false) :
+    (runLines ls' (HitObjectsState.create : HitObjectsState F P)).finish =
+      ((runLines ls (HitObjectsState.create : HitObjectsState F P)).finish).map (shiftHitObjects k) := by
+  have hr := fold_shift_on L ls ls' h _ _ (stateRelOn_create (P := P))
+  exact finish_rel_on L _ _ hr.toRel (stateIn_of_relOn hr hobj) hns
+
+/-- … **sliders included**, the samples resolved for sliders left out of the comparison (`eraseHO`). -/
+theorem shift_invariant_on_erased (L : ShiftLawsOn S k) (ls ls' : SecLines) (h : LinesShiftOn S k ls ls')
+    (hobj : ∀ o ∈ (runLines ls (HitObjectsState.create : HitObjectsState F P)).core.hitObjects, ObjIn S o) :
+    ((runLines ls' (HitObjectsState.create : HitObjectsState F P)).finish).map eraseHO =
+      ((runLines ls (HitObjectsState.create : HitObjectsState F P)).finish).map
+        (fun ho => eraseHO (shiftHitObjects k ho)) := by
+  have hr := fold_shift_on L ls ls' h _ _ (stateRelOn_create (P := P))
+  exact finish_rel_on_erased L _ _ hr.toRel (stateIn_of_relOn hr hobj)
+
+/-! ### the `Beatmap` decoder -/
+
+def BmRelOn (S : F → Prop) (k : F) (st st' : BeatmapState F P) : Prop :=
+  st'.version = st.version ∧ st'.editor = st.editor ∧ st'.metadata = st.metadata ∧ st'.colors = st.colors ∧
+  StateRelOn S k st.hitObjects st'.hitObjects
+
+omit [Trig F] [Trig P] in
+theorem beatmap_step_shift_on (L : ShiftLawsOn S k) (sec : Section) (st st' : BeatmapState F P) (h : BmRelOn S k st st')
+    (line line' : Str) (hl : SecLineShiftOn S k sec line line') :
+    BmRelOn S k (st.step sec line) (st'.step sec line') := by
+  obtain ⟨hv, he, hm, hc, hh⟩ := h
+  cases sec with
+  | editor =>
+    have : line' = line := hl
+    subst this
+    refine ⟨hv, ?_, hm, hc, hh⟩
+    show (parseEditor st'.editor line').1 = (parseEditor st.editor line').1
+    rw [he]
+  | metadata =>
+    have : line' = line := hl
+    subst this
+    refine ⟨hv, he, ?_, hc, hh⟩
+    show (parseMetadata st'.metadata line').1 = (parseMetadata st.metadata line').1
+    rw [hm]
+  | colors =>
+    have : line' = line := hl
+    subst this
+    refine ⟨hv, he, hm, ?_, hh⟩
+    show (parseColors st'.colors line').1 = (parseColors st.colors line').1
+    rw [hc]
+  | general => exact ⟨hv, he, hm, hc, step_shift_on L _ _ _ hh _ _ hl⟩
+  | difficulty => exact ⟨hv, he, hm, hc, step_shift_on L _ _ _ hh _ _ hl⟩
+  | events => exact ⟨hv, he, hm, hc, step_shift_on L _ _ _ hh _ _ hl⟩
+  | timingPoints => exact ⟨hv, he, hm, hc, step_shift_on L _ _ _ hh _ _ hl⟩
+  | hitObjects => exact ⟨hv, he, hm, hc, step_shift_on L _ _ _ hh _ _ hl⟩
+  | variables => exact ⟨hv, he, hm, hc, hh⟩
+  | catchTheBeat => exact ⟨hv, he, hm, hc, hh⟩
+  | mania => exact ⟨hv, he, hm, hc, hh⟩
+
+omit [Trig F] [Trig P] in
+theorem beatmap_fold_shift_on (L : ShiftLawsOn S k) (ls ls' : SecLines) (h : LinesShiftOn S k ls ls')
+    (st st' : BeatmapState F P) (hst : BmRelOn S k st st') :
+    BmRelOn S k (runBeatmapLines ls st) (runBeatmapLines ls' st') := by
+  induction h generalizing st st' with
+  | nil => exact hst
+  | cons hab _ ih =>
+    obtain ⟨hsec, hl⟩ := hab
+    unfold runBeatmapLines
+    simp only [List.foldl]
+    rw [hsec]
+    exact ih _ _ (beatmap_step_shift_on L _ st st' hst _ _ hl)
+
+/-- **shift_invariant on a domain `S`** (`Beatmap` decoder, no sliders). -/
+theorem beatmap_shift_invariant_on (L : ShiftLawsOn S k) (version : Int) (ls ls' : SecLines) (h : LinesShiftOn S k ls ls')
+    (hobj : ∀ o ∈ (runBeatmapLines ls (BeatmapState.create version : BeatmapState F P)).hitObjects.core.hitObjects, ObjIn S o)
+    (hns : ∀ o ∈ (runBeatmapLines ls (BeatmapState.create version : BeatmapState F P)).hitObjects.core.hitObjects,
+      isSlider o = false) :
+    (runBeatmapLines ls' (BeatmapState.create version : BeatmapState F P)).finish =
+      ((runBeatmapLines ls (BeatmapState.create version : BeatmapState F P)).finish).map (shiftBeatmap k) := by
+  obtain ⟨hv, he, hm, hc, hh⟩ := beatmap_fold_shift_on L ls ls' h
+    (BeatmapState.create version : BeatmapState F P) (BeatmapState.create version)
+    ⟨rfl, rfl, rfl, rfl, stateRelOn_create⟩
+  have hf := finish_rel_on L _ _ hh.toRel (stateIn_of_relOn hh hobj) hns
+  unfold BeatmapState.finish
+  simp only [hf, hv, he, hm, hc, bind, Except.bind]
+  cases (runBeatmapLines ls (BeatmapState.create version : BeatmapState F P)).hitObjects.finish with
+  | error e => rfl
+  | ok ho => rfl
+
 end Rosu.C15
